@@ -320,17 +320,18 @@ inductive Query where
   | globPrefix (v : Val) (pre : String)
   deriving DecidableEq, Repr
 
+/-- Sub-trees are suspended (`Unit → Tree α`) so that running the model only unfolds the branch taken. -/
 inductive Tree (α : Type) where
   | ret (a : α)
-  | cmd (c : Cmd) (pre : List Pre) (effs : List Effect) (ok fail : Tree α)
-  | ask (q : Query) (yes no : Tree α)
-  | eff (e : Effect) (next : Tree α)
+  | cmd (c : Cmd) (pre : List Pre) (effs : List Effect) (ok fail : Unit → Tree α)
+  | ask (q : Query) (yes no : Unit → Tree α)
+  | eff (e : Effect) (next : Unit → Tree α)
 
 def Tree.bind {α β : Type} : Tree α → (α → Tree β) → Tree β
   | .ret a, k => k a
-  | .cmd c p e ok fail, k => .cmd c p e (ok.bind k) (fail.bind k)
-  | .ask q y n, k => .ask q (y.bind k) (n.bind k)
-  | .eff e next, k => .eff e (next.bind k)
+  | .cmd c p e ok fail, k => .cmd c p e (fun u => (ok u).bind k) (fun u => (fail u).bind k)
+  | .ask q y n, k => .ask q (fun u => (y u).bind k) (fun u => (n u).bind k)
+  | .eff e next, k => .eff e (fun u => (next u).bind k)
 
 /-! ## Shell state and expansion -/
 
@@ -506,12 +507,12 @@ def runCmd (st : St) (kind : CmdKind) (argv : List Val) (extra : List Effect) : 
   let stOk : St := { st with ncmd := st.ncmd + 1, last := .lit 0 }
   let stFail : St := { st with ncmd := st.ncmd + 1 }
   let p : Plan := if kind = .ext then toolPlan st argv else noPlan
-  .cmd c p.pre (extra ++ p.effs) (.ret (.norm stOk)) (failWith stFail (.statusOf st.ncmd))
+  .cmd c p.pre (extra ++ p.effs) (fun _ => .ret (.norm stOk)) (fun _ => failWith stFail (.statusOf st.ncmd))
 
 def staticOrAsk (a b : Val) : Tree Bool :=
   match a.chars?, b.chars? with
   | some x, some y => .ret (x == y)
-  | _, _ => .ask (.strEq a.norm b.norm) (.ret true) (.ret false)
+  | _, _ => .ask (.strEq a.norm b.norm) (fun _ => .ret true) (fun _ => .ret false)
 
 def testTree (st : St) : Test → Tree Bool
   | .strEq a b => staticOrAsk (expand st a) (expand st b)
@@ -520,15 +521,15 @@ def testTree (st : St) : Test → Tree Bool
     let v := expand st a
     match v.chars? with
     | some x => .ret x.isEmpty
-    | none => .ask (.valEmpty v.norm) (.ret true) (.ret false)
-  | .pathExists p => .ask (.pathExists (resolve st.cwd (expand st p))) (.ret true) (.ret false)
-  | .isFile p => .ask (.isFile (resolve st.cwd (expand st p))) (.ret true) (.ret false)
-  | .isDir p => .ask (.isDir (resolve st.cwd (expand st p))) (.ret true) (.ret false)
+    | none => .ask (.valEmpty v.norm) (fun _ => .ret true) (fun _ => .ret false)
+  | .pathExists p => .ask (.pathExists (resolve st.cwd (expand st p))) (fun _ => .ret true) (fun _ => .ret false)
+  | .isFile p => .ask (.isFile (resolve st.cwd (expand st p))) (fun _ => .ret true) (fun _ => .ret false)
+  | .isDir p => .ask (.isDir (resolve st.cwd (expand st p))) (fun _ => .ret true) (fun _ => .ret false)
   | .globPrefix a pre =>
     let v := expand st a
     match v.chars? with
     | some x => .ret (pre.toList.isPrefixOf x)
-    | none => .ask (.globPrefix v.norm pre) (.ret true) (.ret false)
+    | none => .ask (.globPrefix v.norm pre) (fun _ => .ret true) (fun _ => .ret false)
   | .bad _ => .ret false
 
 /-- `case` pattern: literal characters, `?` (one character), a trailing `*` -/
@@ -563,19 +564,19 @@ def exec : Sh → St → Tree Res
   | .heredoc target lines, st =>
     -- the shell creates / truncates the target, then `cat` copies the document into it
     let p := resolve st.cwd (expand st target)
-    .eff (.write p (.text [])) (runCmd st .ext [[.lit "cat"]] [.write p (.heredoc lines)])
+    .eff (.write p (.text [])) (fun _ => runCmd st .ext [[.lit "cat"]] [.write p (.heredoc lines)])
   | .echo args redir, st =>
     match redir with
     | none => .ret (.norm (okSt st))
     | some t =>
       .eff (.write (resolve st.cwd (expand st t)) (.text (Val.norm (((expandArgs st args).intersperse [.lit " "]).flatten ++ [.lit "\n"]))))
-        (.ret (.norm (okSt st)))
+        (fun _ => .ret (.norm (okSt st)))
   | .cd dir, st =>
     let p := resolve st.cwd (expand st dir)
-    .ask (.isDir p) (.ret (.norm (okSt { st with cwd := p }))) (failWith st (.lit 1))
+    .ask (.isDir p) (fun _ => .ret (.norm (okSt { st with cwd := p }))) (fun _ => failWith st (.lit 1))
   | .source file, st =>
     let v := expand st file
-    .ask (.isFile (resolve st.cwd v)) (runCmd st .source [v] []) (failWith st (.lit 1))
+    .ask (.isFile (resolve st.cwd v)) (fun _ => runCmd st .source [v] []) (fun _ => failWith st (.lit 1))
   | .evalCmd _ name args, st => runCmd st .ext (expandArgs st (name :: args)) []
   | .exit code, _ => .ret (.exit (.lit code))
   | .shiftOptind, st => .ret (.norm (okSt { st with shifted := true }))
@@ -663,10 +664,10 @@ def interp {α : Type} (o : Oracle) (inv : Nat) : Tree α → Dyn → α × Dyn
   | .cmd c pre effs ok fail, d =>
     let idx := d.log.length
     let s := cmdStatus o d.fs idx c pre
-    if s = 0 then interp o inv ok { fs := applyEffs inv idx d.fs effs, log := d.log ++ [(c, 0)] }
-    else interp o inv fail { d with log := d.log ++ [(c, s)] }
-  | .ask q y n, d => if answer o d.fs q then interp o inv y d else interp o inv n d
-  | .eff e next, d => interp o inv next { d with fs := applyEff inv d.log.length d.fs e }
+    if s = 0 then interp o inv (ok ()) { fs := applyEffs inv idx d.fs effs, log := d.log ++ [(c, 0)] }
+    else interp o inv (fail ()) { d with log := d.log ++ [(c, s)] }
+  | .ask q y n, d => if answer o d.fs q then interp o inv (y ()) d else interp o inv (n ()) d
+  | .eff e next, d => interp o inv (next ()) { d with fs := applyEff inv d.log.length d.fs e }
 
 def statusAt (log : List (Cmd × Nat)) (idx : Nat) : Nat :=
   match log[idx]? with
